@@ -307,13 +307,22 @@ func runC12(t *testing.T, c HandleCase) (*h.Violation, h.Info) {
 					return
 				}
 				taken = true
-				if hd := st.Secret(name); hd != nil {
-					known[name] = true
-					ackOf(name).Store(1)
-					hmu.Lock()
-					handles = append(handles, namedHandle{name, hd})
-					hmu.Unlock()
-					info.Class("handle-taken-during-poll")
+				// obtained from another goroutine under a watchdog: code that holds the store's lock
+				// across this request would otherwise dead-lock the poll against itself
+				got := make(chan setec.Secret, 1)
+				go func() { got <- st.Secret(name) }()
+				select {
+				case hd := <-got:
+					if hd != nil {
+						known[name] = true
+						ackOf(name).Store(1)
+						hmu.Lock()
+						handles = append(handles, namedHandle{name, hd})
+						hmu.Unlock()
+						info.Class("handle-taken-during-poll")
+					}
+				case <-time.After(5 * time.Second):
+					fail("never-waits-for-the-service", "obtaining a handle did not complete within 5s (real time) while a poll request was outstanding")
 				}
 			}
 			clock.Advance(11)
